@@ -30,11 +30,15 @@
 #include <string>
 #include <vector>
 
+// fraction of the opacity carried by helium (0 or 0.25: sigma_H = (1 - f) sigma, sigma_He = f sigma, both neutral fractions 1)
+static double g_fhe = 0.;
+
 static void set_cell(IonizationVariables &v, double n) {
   v.set_number_density(n);
   v.set_ionic_fraction(ION_H_n, 1.);
 #ifdef HAS_HELIUM
-  v.set_ionic_fraction(ION_He_n, 0.);
+  v.set_ionic_fraction(ION_He_n, g_fhe > 0. ? 1. : 0.);
+  v.set_heating(HEATINGTERM_He, 0.);
 #endif
   for (int_fast32_t ion = 0; ion < NUMBER_OF_IONNAMES; ++ion)
     v.set_mean_intensity(ion, 0.);
@@ -53,16 +57,25 @@ static void make_packet(PhotonPacket &ph, const double *pos, const long *d, cons
   ph.set_target_optical_depth(tau);
   for (int_fast32_t ion = 0; ion < NUMBER_OF_IONNAMES; ++ion)
     ph.set_photoionization_cross_section(ion, 0.);
-  ph.set_photoionization_cross_section(ION_H_n, sigma);
+  ph.set_photoionization_cross_section(ION_H_n, (1. - g_fhe) * sigma);
+#ifdef HAS_HELIUM
+  ph.set_photoionization_cross_section(ION_He_n, g_fhe * sigma);
+#endif
 }
 
 static int do_single(const char *in, const char *outname) {
   std::ifstream f(in);
   FILE *out = fopen(outname, "w");
   std::string line;
+  long icase = 0;
   while (std::getline(f, line)) {
     if (line.empty())
       continue;
+    // every second case: a quarter of the opacity is helium's
+#ifdef HAS_HELIUM
+    g_fhe = (icase % 2 == 1) ? 0.25 : 0.;
+#endif
+    ++icase;
     std::istringstream is(line);
     long N[3], p[3], d[3];
     double u[3], a[3], tau, w, sigma, nu;
@@ -85,16 +98,29 @@ static int do_single(const char *in, const char *outname) {
     const CoordinateVector<> e = ph.get_position();
     fprintf(out, "{\"out\":%d,\"end\":[%.17g,%.17g,%.17g],\"tauleft\":%.17g,\"dep\":[", o, (e.x() - a[0]) / u[0],
             (e.y() - a[1]) / u[1], (e.z() - a[2]) / u[2], ph.get_target_optical_depth());
-    std::string heat;
+    std::string heat, dephe, heathe;
     idx = 0;
+    const double sH = (1. - g_fhe) * sigma;
     for (auto it = grid.begin(); it != grid.end(); ++it, ++idx) {
       const IonizationVariables &v = it.get_ionization_variables();
-      fprintf(out, "%s%.17g", idx ? "," : "", v.get_mean_intensity(ION_H_n) / (w * sigma));
+      fprintf(out, "%s%.17g", idx ? "," : "", v.get_mean_intensity(ION_H_n) / (w * sH));
       char b[64];
-      snprintf(b, sizeof(b), "%s%.17g", idx ? "," : "", v.get_heating(HEATINGTERM_H) / (w * sigma * (nu - 3.288e15)));
+      snprintf(b, sizeof(b), "%s%.17g", idx ? "," : "", v.get_heating(HEATINGTERM_H) / (w * sH * (nu - 3.288e15)));
       heat += b;
+#ifdef HAS_HELIUM
+      if (g_fhe > 0.) {
+        snprintf(b, sizeof(b), "%s%.17g", idx ? "," : "", v.get_mean_intensity(ION_He_n) / (w * g_fhe * sigma));
+        dephe += b;
+        snprintf(b, sizeof(b), "%s%.17g", idx ? "," : "", v.get_heating(HEATINGTERM_He) / (w * g_fhe * sigma * (nu - 5.948e15)));
+        heathe += b;
+      }
+#endif
     }
-    fprintf(out, "],\"heat\":[%s]}\n", heat.c_str());
+    fprintf(out, "],\"heat\":[%s]", heat.c_str());
+    if (g_fhe > 0.)
+      fprintf(out, ",\"dephe\":[%s],\"heathe\":[%s]", dephe.c_str(), heathe.c_str());
+    fprintf(out, "}\n");
+    g_fhe = 0.;
     (void)ncell;
   }
   fclose(out);
